@@ -41,7 +41,17 @@ pub const META_C09: Meta = Meta {
     floor: 100000,
 };
 
-const SOUP: [&str; 78] = [
+const SOUP: [&str; 86] = [
+    // identifiers may contain any Unicode decimal digit (the lexer's `\d`), and messages that
+    // quote or truncate a lexeme meet multi-byte characters at arbitrary byte offsets
+    "a\u{663}\u{663}\u{663}\u{663}\u{663}\u{663}\u{663}\u{663}\u{663}\u{663}\u{663}\u{663}\u{663}\u{663}\u{663}\u{663}",
+    "x\u{661}\u{662}",
+    "ab\u{7c1}\u{7c2}\u{7c3}\u{7c4}\u{7c5}\u{7c6}\u{7c7}\u{7c8}\u{7c9}\u{7c0}\u{7c1}\u{7c2}\u{7c3}\u{7c4}\u{7c5}\u{7c6}\u{7c7}\u{7c8}\u{7c9}\u{7c0}\u{7c1}\u{7c2}\u{7c3}\u{7c4}\u{7c5}\u{7c6}\u{7c7}\u{7c8}\u{7c9}\u{7c0}\u{7c1}\u{7c2}",
+    "a_very_long_identifier_that_is_longer_than_thirty_two_bytes_and_then_some_more_to_pass_sixty_four_bytes",
+    "abc\u{1d7ce}\u{1d7cf}\u{1d7d0}\u{1d7d1}\u{1d7d2}\u{1d7d3}\u{1d7d4}\u{1d7d5}\u{1d7d6}\u{1d7d7}",
+    "0x00000000000000000000000000000000000000000000000000000000000000001",
+    "0b0000000000000000000000000000000000000000000000000000000000000000000000001",
+    "000000000000000000000000000000000000000000000000000000000000000000000000007",
     ",", ";", "+", "-", "*", "/", "%", "!", "~", "^", "&", "|", "<<", ">>", "=", "!=", "<=", ">=", "<", ">", "(", ")", "end", "loop", "repeat", "bits", "let",
     "resetRandom", "while", "declare", "program", "init", "memory", "def", "call", "C", "X", "Z", "c", "x", "z", "a", "Q", "n", "random", "ite", "signExt", "looper", "0",
     "1", "7", "08", "0x1F", "0X", "0b101", "0b2", "017", "9223372036854775807", "9223372036854775808", "0xFFFFFFFFFFFFFFFFF", "18446744073709551616", "\n", "\n", "\n",
